@@ -959,6 +959,11 @@ func (env *SpecEnv) evalCall(x *SExpr) *Val {
 					if fn.Name == "cap" {
 						c = "CH:cap"
 					}
+					if env.facts != nil {
+						la := sel(e.comp(env.cur, "CH:len", "(Array Int Int)"), v.term())
+						ca := sel(e.comp(env.cur, "CH:cap", "(Array Int Int)"), v.term())
+						*env.facts = append(*env.facts, fmt.Sprintf("(and (<= 0 %s) (<= %s %s))", la, la, ca))
+					}
 					return mathInt(sel(e.comp(env.cur, c, "(Array Int Int)"), v.term()))
 				}
 			}
